@@ -18,29 +18,103 @@ The observable output is the margin box of every float, the position and width o
 the border box of every BFC root and the top of every plain block.
 -/
 import WpModel.Model.Floats
+import WpModel.Model.Absolute
 
 namespace Wp.Floats
 
-/-- One line of a paragraph: the width of its (single) word and the floats met in the line after
-that word (`<span style="float:…">`, without paddings or borders: `bw` is their content width). -/
+/-- One line of a paragraph (lines are separated by forced breaks, so a line's content does not depend
+on the width it is given): `w0` = `inline_min_content_width(first_line=True)` of the line (the word's
+width; 0 for a line holding only an inline-block, which has a break opportunity before it), `w`, `h` =
+width and height of the laid-out line, and the floats met in the line after its content
+(`<span style="float:…">`, without paddings or borders: `bw` is their content width). -/
 structure LineSpec where
+  w0 : Rat
   w : Rat
+  h : Rat
   floats : List ABox
   deriving Repr, Inhabited
 
+/-- `text-align` (`text_align_all`; `text-align-last` is auto). -/
+inductive Align where
+  | start | «end» | left | right | center
+  deriving Repr, DecidableEq, Inhabited
+
+/-- Computed style and content of a block-level float, as `float_layout` receives it
+(content-box sizing; no min/max-height). -/
+structure FloatSpec where
+  side : FloatV
+  clear : Clear
+  width : Absolute.Dim
+  height : Len                 -- px or auto
+  ml : Absolute.Dim
+  mr : Absolute.Dim
+  mt : Absolute.Dim
+  mb : Absolute.Dim
+  pl : Absolute.Dim
+  pr : Absolute.Dim
+  pt : Absolute.Dim
+  pb : Absolute.Dim
+  bl : Rat
+  br : Rat
+  bt : Rat
+  bb : Rat
+  minW : Absolute.Dim          -- auto = 0
+  maxW : Absolute.Dim          -- auto = none = inf
+  minC : Rat                   -- min-content width of the content (outer=False)
+  maxC : Rat
+  hWide : Rat                  -- content height when the used width reaches `maxC` …
+  hNarrow : Rat                -- … and otherwise
+  deriving Repr, Inhabited
+
+/-- `float_width` (layout/float.py) under its `handle_min_max_width` wrapper, for `box.width == 'auto'`:
+`shrink_to_fit(context, box, containing_block.width)` — the whole width of the containing block is
+offered, the float's own margins, borders and paddings are not taken off (known finding
+float-shrink-to-fit-ignores-margins-paddings) — then max-width, then min-width. -/
+def floatWidthAuto (minW : Rat) (maxW : Option Rat) (minC maxC cbW : Rat) : Rat :=
+  let w := min (max minC cbW) maxC
+  let w := match maxW with
+    | some mx => if w > mx then mx else w
+    | none => w
+  if w < minW then minW else w
+
+/-- The beginning of `float_layout`: `resolve_percentages` against the containing block's width, auto
+margins become 0, an auto width is shrink-to-fit (`elif box.width == 'auto': float_width(…)`: a
+specified width is *not* clamped by min/max-width, known finding float-width-ignores-min-max), the
+height is the specified one or the content's.  The result is the box handed to the placement part. -/
+def floatResolve (f : FloatSpec) (cbW : Rat) : ABox :=
+  let z := Absolute.autoZero
+  let ml := z (f.ml.resolve cbW)
+  let mr := z (f.mr.resolve cbW)
+  let mt := z (f.mt.resolve cbW)
+  let mb := z (f.mb.resolve cbW)
+  let pl := z (f.pl.resolve cbW)
+  let pr := z (f.pr.resolve cbW)
+  let pt := z (f.pt.resolve cbW)
+  let pb := z (f.pb.resolve cbW)
+  let w := match f.width.resolve cbW with
+    | some w => w
+    | none => floatWidthAuto (z (f.minW.resolve cbW)) (f.maxW.resolve cbW) f.minC f.maxC cbW
+  let h := match f.height with
+    | some h => h
+    | none => if w ≥ f.maxC then f.hWide else f.hNarrow
+  ⟨0, 0, mt, mb, ml, mr, w + pl + pr + f.bl + f.br, h + pt + pb + f.bt + f.bb, f.side, f.clear, .bfc⟩
+
 inductive Item where
   | float (b : ABox)                                   -- `px`, `py` are set by the flow
-  | para (clear : Clear) (fs : Rat) (lines : List LineSpec) (mt mb : Rat)
+  | floatSpec (f : FloatSpec)                          -- a float given by its computed style
+  | para (clear : Clear) (fs : Rat) (align : Align) (lines : List LineSpec) (mt mb : Rat)
   | bfc (clear : Clear) (width : Len) (h ml mr mt mb : Rat)
   | block (clear : Clear) (h mt mb : Rat)
   | replaced (kind : Kind) (clear : Clear) (w h ml mr : Rat)  -- block-level image (`.replaced`) or table (`.tableWrapper`)
   deriving Repr, Inhabited
 
-/-- A placed line: `(position_x, position_y, width)` and the margin boxes of its floats, in document order. -/
+/-- A placed line: `(position_x, position_y, width, height)` and the margin boxes of its floats, in
+document order. -/
 structure PlacedLine where
   x : Rat
   y : Rat
   w : Rat
+  h : Rat
   floats : List (Rat × Rat × Rat × Rat)
   deriving Repr, Inhabited
 
@@ -101,32 +175,91 @@ def inlinePass2 (cb : CB) (lineBottom : Rat) :
       | .error e => .error e
       | .ok (shapes', out) => .ok (shapes', (b'.px, b'.py, b'.marginWidth, b'.marginHeight) :: out)
 
+/-- `text_align(context, line, available_width, last)` of layout/inline.py for the non-justifying values:
+the horizontal offset of a line of width `w` in `avail`. -/
+def textAlign (a : Align) (rtl : Bool) (w avail : Rat) : Rat :=
+  if w ≥ avail then 0 else
+  let a' : Align := match a with
+    | .left => if !rtl then .start else .«end»       -- `(align == 'left') ^ (direction == 'rtl')`
+    | .right => if rtl then .start else .«end»
+    | a => a
+  match a' with
+  | .start => 0
+  | .center => (avail - w) / 2
+  | _ => avail - w
+
+/-- What one pass of the `while True` loop of `get_next_linebox` produces. -/
+structure LineTry where
+  shapes : List Shape                                         -- `context.excluded_shapes` after the pass
+  marks : List (ABox × Option (Rat × Rat × Rat × Rat))        -- floats of the line: laid out / waiting
+  x : Rat                                                     -- `line.position_x` after `text_align`
+  y : Rat
+  deriving Repr, Inhabited
+
+/-- The `while True` loop of `get_next_linebox`, from the position `(px, py, avail)` returned by the
+previous `avoid_collisions`; `lbw` = `linebox.width` on entry, `cand` = `candidate_height`; `shapes0` =
+the copy of `excluded_shapes` taken before the loop.
+One pass: `split_inline_box` (the floats met in the line are laid out or deferred), `avoid_collisions`
+on the laid-out line box for the width that `text_align` distributes, stop if the line is not higher
+than the candidate height; otherwise try the real line against the floats that existed before the line
+and stop if it stays where it is, else start again from the new position. -/
+def lineLoop (cb : CB) (strut : Rat) (align : Align) (l : LineSpec) (shapes0 : List Shape) :
+    Nat → Rat → Rat → Rat → Rat → Rat → Except PyErr LineTry
+  | 0, _, _, _, _, _ => .error (.recursion "get_next_linebox:loop")
+  | fuel + 1, px, py, avail, lbw, cand =>
+    match inlinePass1 cb py shapes0 (avail - l.w) false l.floats with
+    | .error e => .error e
+    | .ok (shapes1, marks) =>
+      -- `linebox.width, linebox.height = line.width, line.height`: at this point the height of the line
+      -- returned by `split_inline_box` is still the strut's line height (`line_box_verticality` comes later)
+      let split : ABox := ⟨px, py, 0, 0, 0, 0, l.w, strut, .none, .none, .line⟩
+      let laid : ABox := ⟨px, py, 0, 0, 0, 0, l.w, l.h, .none, .none, .line⟩
+      match avoidCollisions shapes1 split cb false with
+      | .error e => .error e
+      | .ok p2 =>
+        let off := textAlign align cb.rtl l.w p2.avail
+        let x := if cb.rtl then px + (-off - l.w) else px + off
+        if l.h ≤ cand then .ok ⟨shapes1, marks, x, py⟩ else
+        match avoidCollisions shapes0 laid cb false with
+        | .error e => .error e
+        | .ok p3 =>
+          let same := if !cb.rtl then p3.x = px ∧ p3.y = py else p3.x + l.w = px + lbw ∧ p3.y = py
+          if same then .ok ⟨shapes1, marks, x, py⟩
+          else lineLoop cb strut align l shapes0 fuel p3.x p3.y p3.avail l.w l.h
+
+/-- `get_next_linebox` for one line starting at `y`: the first `avoid_collisions` is made with the
+min-content width of the line's first word and the strut height when floats exist, and with an empty
+box otherwise. -/
+def nextLinebox (cb : CB) (strut : Rat) (align : Align) (shapes : List Shape) (l : LineSpec) (y : Rat) :
+    Except PyErr LineTry :=
+  let w0 := if shapes.isEmpty then 0 else l.w0
+  let h0 := if shapes.isEmpty then 0 else strut
+  let first : ABox := ⟨cb.cx, y, 0, 0, 0, 0, w0, h0, .none, .none, .line⟩
+  match avoidCollisions shapes first cb false with
+  | .error e => .error e
+  | .ok p => lineLoop cb strut align l shapes 3 p.x p.y p.avail w0 h0
+
 /-- The line boxes of a paragraph starting at `y`. -/
-def layoutLines (cb : CB) (fs : Rat) :
+def layoutLines (cb : CB) (fs : Rat) (align : Align) :
     List Shape → List LineSpec → Rat → Except PyErr (List Shape × List PlacedLine × Rat)
   | shapes, [], y => .ok (shapes, [], y)
   | shapes, l :: ls, y =>
-    let line : ABox := ⟨cb.cx, y, 0, 0, 0, 0, l.w, fs, .none, .none, .line⟩
-    match avoidCollisions shapes line cb false with
+    match nextLinebox cb fs align shapes l y with
     | .error e => .error e
-    | .ok p =>
-      let x := if cb.rtl then p.x - l.w else p.x
-      match inlinePass1 cb p.y shapes (p.avail - l.w) false l.floats with
+    | .ok t =>
+      -- `line_box_verticality`: every float placed on the line is moved to the line's top
+      -- (`dy = min_y - subtree.position_y`), wherever `find_float_position` had put it; the box is the
+      -- one stored in `excluded_shapes`, so the shape moves too (known finding
+      -- inline-float-snapped-to-line-top)
+      let shapes1 := t.shapes.take shapes.length ++
+        (t.shapes.drop shapes.length).map (fun s => { s with y := t.y })
+      let marks := t.marks.map (fun m => (m.1, m.2.map (fun r => (r.1, t.y, r.2.2.1, r.2.2.2))))
+      match inlinePass2 cb (t.y + l.h) shapes1 marks with
       | .error e => .error e
-      | .ok (shapes1, marks0) =>
-        -- `line_box_verticality`: every float placed on the line is moved to the line's top
-        -- (`dy = min_y - subtree.position_y`), wherever `find_float_position` had put it; the box is the
-        -- one stored in `excluded_shapes`, so the shape moves too (known finding
-        -- inline-float-snapped-to-line-top)
-        let shapes1 := shapes1.take shapes.length ++
-          (shapes1.drop shapes.length).map (fun s => { s with y := p.y })
-        let marks := marks0.map (fun m => (m.1, m.2.map (fun r => (r.1, p.y, r.2.2.1, r.2.2.2))))
-        match inlinePass2 cb (p.y + fs) shapes1 marks with
+      | .ok (shapes2, rects) =>
+        match layoutLines cb fs align shapes2 ls (t.y + l.h) with
         | .error e => .error e
-        | .ok (shapes2, rects) =>
-          match layoutLines cb fs shapes2 ls (p.y + fs) with
-          | .error e => .error e
-          | .ok (shapes3, rest, y') => .ok (shapes3, ⟨x, p.y, l.w, rects⟩ :: rest, y')
+        | .ok (shapes3, rest, y') => .ok (shapes3, ⟨t.x, t.y, l.w, l.h, rects⟩ :: rest, y')
 
 /-- State of the flow: floats so far, the parent's `position_y`, the adjoining margins. -/
 structure FlowState where
@@ -135,17 +268,21 @@ structure FlowState where
   adj : List Rat
   deriving Repr, Inhabited
 
+/-- A block-level float: `_out_of_flow_layout`: `child.position_y += collapse_margin(adjoining_margins)`,
+then `float_layout`. -/
+def flowFloat (cb : CB) (st : FlowState) (b : ABox) : Except PyErr (FlowState × Placed) :=
+  match floatPlace st.shapes { b with px := cb.cx, py := st.y + collapseMargin st.adj } cb with
+  | .error e => .error e
+  | .ok (b', shapes') =>
+    .ok ({ st with shapes := shapes' }, .float b'.px b'.py b'.marginWidth b'.marginHeight)
+
 /-- One child of the container: new state, what was placed. -/
 def flowStep (cb : CB) (st : FlowState) : Item → Except PyErr (FlowState × Placed)
-  | .float b =>
-    -- `_out_of_flow_layout`: `child.position_y += collapse_margin(adjoining_margins)`
-    match floatPlace st.shapes { b with px := cb.cx, py := st.y + collapseMargin st.adj } cb with
-    | .error e => .error e
-    | .ok (b', shapes') =>
-      .ok ({ st with shapes := shapes' }, .float b'.px b'.py b'.marginWidth b'.marginHeight)
-  | .para c fs lines mt mb =>
+  | .float b => flowFloat cb st b
+  | .floatSpec f => flowFloat cb st (floatResolve f cb.w)
+  | .para c fs align lines mt mb =>
     let top := clearedTop st.shapes c st.y (collapseMargin (st.adj ++ [mt]))
-    match layoutLines cb fs st.shapes lines top.1 with
+    match layoutLines cb fs align st.shapes lines top.1 with
     | .error e => .error e
     | .ok (shapes', placed, y') => .ok (⟨shapes', y', [mb]⟩, .para placed)
   | .bfc c width h ml mr mt mb =>
